@@ -8,6 +8,7 @@ import (
 	"fmt"
 	"math/rand"
 	"os"
+	"time"
 
 	"github.com/Shopify/sarama"
 
@@ -24,6 +25,7 @@ type caseJSON struct {
 	Plan     []bg.PlanEntry `json:"plan,omitempty"`
 	Err      bool           `json:"err,omitempty"`
 	Panic    string         `json:"panic,omitempty"`
+	Hang     bool           `json:"hang,omitempty"`
 	Chain    string         `json:"chain,omitempty"`
 	Step     int            `json:"step,omitempty"`
 	Log      []string       `json:"log,omitempty"`
@@ -117,6 +119,30 @@ func witnessInput() bg.Input {
 	return in
 }
 
+// witness of the performReassignments livelock (minimised from an honest chain): four single-topic members hold a
+// balanced assignment, a member subscribed to both topics joins
+func livelockInput() bg.Input {
+	enc := func(t map[string][]int32, g int32) []byte {
+		b, err := sarama.BalanceStrategySticky.AssignmentData("", t, g)
+		if err != nil {
+			panic(err)
+		}
+		return b
+	}
+	in := bg.Input{
+		Members: []bg.Member{
+			{ID: "a", Topics: []string{"t"}, Data: enc(map[string][]int32{"t": {5, 6, 1, 2, 0, 10}}, 3)},
+			{ID: "b", Topics: []string{"s"}, Data: enc(map[string][]int32{"s": {3, 1, 2}}, 3)},
+			{ID: "c", Topics: []string{"s"}, Data: enc(map[string][]int32{"s": {4, 0}}, 3)},
+			{ID: "d", Topics: []string{"t", "s"}, Data: nil},
+			{ID: "e", Topics: []string{"t"}, Data: enc(map[string][]int32{"t": {9, 3, 4, 7, 8}}, 3)},
+		},
+		Topics: []bg.Topic{{Name: "s", Parts: []int32{0, 1, 2, 3, 4}}, {Name: "t", Parts: []int32{0, 1, 2, 3, 4, 5, 6, 7, 8, 9, 10}}},
+	}
+	in.Normalize()
+	return in
+}
+
 func probeFixed() bool {
 	for i := 0; i < 20; i++ {
 		run := bg.RunSticky(witnessInput())
@@ -138,6 +164,10 @@ func main() {
 
 	if *search > 0 {
 		doSearch(*seed, *search)
+		return
+	}
+	if *replayIn != "" {
+		doReplay(*replayIn)
 		return
 	}
 	fx := probeFixed()
@@ -229,11 +259,14 @@ func main() {
 	wq.Close()
 
 	// ---------------- sticky
+	hangs := 0
 	ws := &cf.Writer{Dir: *out, Prefix: "cases_sticky", Imports: imports, CaseType: "scase", MismatchFn: "mismatches_sticky", ShardSize: 40}
 	addSticky := func(in bg.Input, kind, chain string, step int, log []string) sarama.BalanceStrategyPlan {
 		run := bg.RunSticky(in)
 		var mon *cf.Monitor
 		switch {
+		case run.Hang:
+			mon = &cf.Monitor{Signature: "sticky:does-not-terminate", What: fmt.Sprintf("stickyBalanceStrategy.Plan did not return within %v (performReassignments keeps repeating a pass that changes nothing)", bg.HangTimeout)}
 		case run.Panic != "":
 			mon = &cf.Monitor{Signature: "sticky:panic", What: "stickyBalanceStrategy.Plan panicked: " + run.Panic}
 		case !run.Err:
@@ -243,8 +276,11 @@ func main() {
 			}
 			mon = monitor("sticky", &run.In, run.Plan, extra)
 		}
-		ws.Add(run.CoqCase(fx), cf.Sidecar{Case: caseJSON{Strategy: "sticky", In: &run.In, Oracle: &run.Oracle, Plan: run.Plan, Err: run.Err, Panic: run.Panic, Chain: chain, Step: step, Log: log},
+		ws.Add(run.CoqCase(fx), cf.Sidecar{Case: caseJSON{Strategy: "sticky", In: &run.In, Oracle: &run.Oracle, Plan: run.Plan, Err: run.Err, Panic: run.Panic, Hang: run.Hang, Chain: chain, Step: step, Log: log},
 			Kind: "sticky-" + kind, Nontrivial: in.Nontrivial() && !run.Err, Monitor: mon})
+		if run.Hang {
+			hangs++
+		}
 		return run.RawPlan
 	}
 	// the witness first (corpus)
@@ -283,6 +319,13 @@ func main() {
 			}
 			w.Feedback(plan)
 		}
+	}
+	// the livelock witness last: its Plan call never returns and keeps one core busy until the process exits
+	if hangs == 0 {
+		save := bg.HangTimeout
+		bg.HangTimeout = 2 * time.Second
+		addSticky(livelockInput(), "witness-livelock", "witness-livelock", 0, nil)
+		bg.HangTimeout = save
 	}
 	ws.Close()
 	fmt.Printf("INFO cases bounds=%d range=%d roundrobin=%d sticky=%d\n", wb.Total, wr.Total, wq.Total, ws.Total)
@@ -348,6 +391,36 @@ func boundaries(plan sarama.BalanceStrategyPlan, ids []string, n int) ([]int64, 
 var searchM = flag.Int("sm", 4, "search: max members")
 var searchT = flag.Int("st", 3, "search: max topics")
 var searchP = flag.Int("sp", 4, "search: max partitions per topic")
+
+var replayIn = flag.String("replayin", "", "run the sticky strategy on the input of this JSON file ({\"in\":{...}} or {...}) and print what happens")
+var replayTimes = flag.Int("times", 1, "replay: repetitions")
+
+// doReplay: user data is re-encoded from the decoded form in the file.
+func doReplay(file string) {
+	b, err := os.ReadFile(file)
+	if err != nil {
+		panic(err)
+	}
+	var wrap struct {
+		In *bg.Input `json:"in"`
+	}
+	var in bg.Input
+	if json.Unmarshal(b, &wrap) == nil && wrap.In != nil {
+		in = *wrap.In
+	} else if err := json.Unmarshal(b, &in); err != nil {
+		panic(err)
+	}
+	bg.EncodeUD(&in)
+	bg.HangTimeout = 3 * time.Second
+	for i := 0; i < *replayTimes; i++ {
+		run := bg.RunSticky(in)
+		k, what := bg.Validity(&run.In, run.Plan)
+		fmt.Printf("REPLAY hang=%v panic=%q err=%v invalid=%q %s picks=%d\n", run.Hang, run.Panic, run.Err, k, what, len(run.Oracle.Picks))
+		if run.Hang {
+			return
+		}
+	}
+}
 
 func doSearch(seed int64, chains int) {
 	r := rand.New(rand.NewSource(seed))
